@@ -34,7 +34,7 @@ def case(draw):
     K = draw(st.one_of(st.integers(1, 15), st.sampled_from([1, 2, 15])))
     bound = draw(st.sampled_from(['inf', 'moderate', 'tight', 'inf', 'moderate', 'tight', 'zero']))
     return {'x': x, 'y': y, 'K': K, 'bound': bound, 'vector': draw(st.booleans()) and d == 1,
-            'layout': draw(st.sampled_from(['C', 'C', 'F', 'strided', 'readonly'])), 'dtype': draw(st.sampled_from(['f8', 'f8', 'f4']))}
+            'layout': draw(st.sampled_from(['C', 'C', 'F', 'strided', 'readonly'])), 'dtype': draw(st.sampled_from(['f8', 'f8', 'f4', 'i8', 'i2']))}
 
 
 def oracle(case, rec):
@@ -44,6 +44,9 @@ def oracle(case, rec):
     if case.get('dtype', 'f8') == 'f4':       # single-precision features: distances are taken between the exact stored values
         x = x.astype(np.float32).astype(float)
         y = y.astype(np.float32).astype(float)
+    idt = {'i8': np.int64, 'i2': np.int16}.get(case.get('dtype', 'f8'))
+    if idt is not None:                        # integer-valued features stored as integers (counts, sample indices)
+        x, y = np.round(x * 8), np.round(y * 8)
     K = int(case['K'])
     D = np.sqrt(((x[:, None, :] - y[None, :, :]) ** 2).sum(axis=2))
     if case['bound'] == 'inf':
@@ -57,6 +60,8 @@ def oracle(case, rec):
     xa, ya = (x[:, 0].copy(), y[:, 0].copy()) if case['vector'] else (x.copy(), y.copy())
     if case.get('dtype', 'f8') == 'f4':
         xa, ya = xa.astype(np.float32), ya.astype(np.float32)
+    if idt is not None:
+        xa, ya = xa.astype(idt), ya.astype(idt)
     from .. import gens
     xa, ya = gens.relayout(xa, case.get('layout', 'C')), gens.relayout(ya, case.get('layout', 'C'))
     rec.cls('layout=' + case.get('layout', 'C'))
